@@ -62,12 +62,34 @@ def run(chk):
                 chk.tie_broken('correspondence:frame-model', 'the frame-level model (block bodies replayed) does not reproduce the real frame: level %s, %d input bytes; model: %s real: %s' % (
                     ml[0], len(unhex(ml.split()[5])), (got or '')[:80], hexs(exp)[:80]))
     chk.cov['disagreements_checked'] += ndis
+    # compressed blocks whose literals went out raw: the block model of C02_raw_literal_block_decodes applied to the
+    # literals, distributions and sequences the decoder model reads out of the real block must give the real block,
+    # and the theorem's side conditions must hold on it
+    bodies = []
+    for f, d, l, ln in items:
+        w = framegen.walk_blocks(f)
+        for (p, last, ty, size, body) in (w[1] if w else []):
+            if ty == 2 and body > 0 and (f[p + 3] & 3) == 0 and body < 60000:
+                bodies.append((f[p + 3:p + 3 + body], l))
+    bodies = bodies[:400 if thorough else 150]
+    br = model_run('rawblock', [hexs(b) for b, l in bodies], timeout=1500)
+    nrb = 0
+    for (b, l), r in zip(bodies, br):
+        w = (r or 'missing').split()
+        if len(w) < 3 or w[0] != 'ok' or w[2] != hexs(b):
+            chk.tie_broken('correspondence:raw-literal-block', 'the block model does not reproduce a real compressed block with raw literals (%s, %d bytes): model %s real %s' % (
+                l, len(b), (r or '')[:80], hexs(b)[:80]))
+            break
+        if w[1] != '1':
+            chk.tie_broken('model:raw-literal-block', 'a real compressed block does not meet the side conditions of the block theorem (%s, %d bytes)' % (l, len(b)))
+            break
+        nrb += 1
     kinds = {}
     for c in cases:
         kinds[c['kind'].split('-')[0] if c['kind'].startswith('gen') else c['kind']] = kinds.get(c['kind'], 0) + 1
     chk.add_samples('roundtrip', len(items), len(set(f for f, d, l, ln in items)), [{'kind': cases[0]['kind'], 'command': lines[0][:120]}, {'kind': cases[-1]['kind'], 'command': lines[-1][:120]}],
                     rule='path-directed inputs (empty, 1 byte, 128 KiB -1/0/+1, two blocks, runs, treeless reuse, raw block between similar blocks, literal counts 1023..1026 and 16383..16385, wide / two-symbol alphabets, long matches and literal runs, far-end-of-window match, block-boundary straddle) and generated contents x {Uncompressed, Fastest} x reader fragment sizes {whole, 1, 7, 1000, 65536, 131071}; 2-4 frames through one reused compressor')
-    chk.cov['components']['roundtrip'].update({'frames_model_vs_real': len(mlines), 'block_types': block_type_histogram([f for f, d, l, ln in items])})
+    chk.cov['components']['roundtrip'].update({'frames_model_vs_real': len(mlines), 'raw_literal_blocks_rewritten_identically_with_side_conditions': nrb, 'block_types': block_type_histogram([f for f, d, l, ln in items])})
 
 
 def block_type_histogram(frames):
